@@ -700,6 +700,25 @@ def gen_st_affine(rng):
     return {"yaml": y, "configs": [cfg], "family": "spacetime-affine", "key": y, "stamped": True, "no_st_yaml": mk_yaml(decl, [expr], part={out: part}, lo={out: lo})}
 
 
+
+def st_conv_core():
+    """Deterministic core: spacetime on a convolution whose index-math rank is shape-partitioned (input following), every legal loop order
+    (incl. the input's own lower level W0) x stamp style x slip; and on the masked convolution."""
+    out = []
+    cases = [({"I": ["W"], "F": ["S"], "O": ["Q"]}, "O[q] = I[q + s] * F[s]", (["Q1", "Q0", "S"], ["Q1", "S", "Q0"], ["S", "Q1", "Q0"], ["Q1", "W0", "Q0"])),
+             ({"I": ["W"], "F": ["S"], "B": ["Q"], "O": ["Q"]}, "O[q] = I[q + s] * F[s] * B[q]", (["Q1", "S", "Q0"], ["Q1", "W0", "Q0"]))]
+    for decl, expr, los in cases:
+        for lo in los:
+            for sty in (".pos", ".coord", ""):
+                for slip in (False, True):
+                    part = {"O": {"Q": ["uniform_shape(2)"], "W": ["follow(Q)"]}}
+                    st = {"O": {"space": [], "time": [r + sty for r in lo], "opt": "slip" if slip else None}}
+                    y = mk_yaml(decl, [expr], part=part, lo={"O": lo}, st=st)
+                    out.append({"yaml": y, "configs": [{"Q": 4, "S": 2, "W": 5}], "family": "spacetime-conv-core", "key": y, "stamped": True,
+                                "no_st_yaml": mk_yaml(decl, [expr], part=part, lo={"O": lo}), "coeffs": (1, 1), "lo": lo, "cap": 24})
+    return out
+
+
 def rename_rank(sp, old, new):
     """The same specification with rank `old` called `new` (ranks may be called anything: I, P, ... -- names that collide with the
     compiler's own suffix conventions are of particular interest)."""
